@@ -46,22 +46,82 @@ theorem histN_fold (c : Nat) (ops : List Op) (h : HistN) :
     | drain =>
       cases hf : h.fe <;> simp [hstepN, Spec.regsOf, Spec.firstExit, Spec.sigAfter, Spec.isSigchld, regAfter, hf]
 
+/-! ### what registrations made after the report leave on the loop and in the log -/
+def isLate : QI → Bool
+  | .late .. => true
+  | .status _ => false
+
+def lateCall (c : Nat) (clr : Bool) : QI → List Call
+  | .late r _ code => [{ child := c, reg := r, code := code, cleared := clr }]
+  | .status _ => []
+
+def lateFut (c : Nat) : QI → List (Nat × Nat × Fut)
+  | .late r m code => (match futOf m code with | some f => [(c, r, f)] | none => [])
+  | .status _ => []
+
+/-- a loop iteration over scheduled late callbacks only: each is called, nothing else changes -/
+theorem fold_late (c : Nat) (q : List QI) (v : View) (hq : ∀ qi ∈ q, isLate qi = true) :
+    q.foldl (vItem c) v =
+      { v with calls := v.calls ++ q.flatMap (lateCall c v.sub.exitCb.isNone), futs := v.futs ++ q.flatMap (lateFut c) } := by
+  induction q generalizing v with
+  | nil => simp
+  | cons qi q ih =>
+    have h1 := hq qi (by simp)
+    have h2 : ∀ x ∈ q, isLate x = true := fun x hx => hq x (by simp [hx])
+    cases qi with
+    | status st => simp [isLate] at h1
+    | late r m code =>
+      simp only [List.foldl_cons, vItem, ih _ h2, vLate, List.flatMap_cons, lateCall, lateFut, List.append_assoc]
+      rfl
+
+/-- every scheduled item is a late callback carrying `code`, of a mode that was registered -/
+def LateQ (regs : List Mode) (code : Option Int) (q : List QI) : Prop :=
+  ∀ qi ∈ q, ∃ r m k, qi = .late r m k ∧ code = some k ∧ m ∈ regs
+
+def LateCalls (c : Nat) (code : Option Int) (lc : List Call) : Prop :=
+  ∀ k ∈ lc, k.child = c ∧ some k.code = code ∧ k.cleared = true
+
+theorem lateQ_isLate {regs code q} (h : LateQ regs code q) : ∀ qi ∈ q, isLate qi = true := by
+  intro qi hqi
+  obtain ⟨r, m, k, rfl, -, -⟩ := h qi hqi
+  rfl
+
+theorem lateQ_mono {regs regs' code q} (h : LateQ regs code q) (hs : ∀ m ∈ regs, m ∈ regs') : LateQ regs' code q := by
+  intro qi hqi
+  obtain ⟨r, m, k, h1, h2, h3⟩ := h qi hqi
+  exact ⟨r, m, k, h1, h2, hs m h3⟩
+
+theorem lateCalls_of_lateQ (c : Nat) {regs code q} (h : LateQ regs code q) :
+    LateCalls c code (q.flatMap (lateCall c true)) := by
+  intro k hk
+  simp only [List.mem_flatMap] at hk
+  obtain ⟨qi, hqi, hk⟩ := hk
+  obtain ⟨r, m, k', rfl, h2, -⟩ := h qi hqi
+  simp only [lateCall, List.mem_singleton] at hk
+  subst hk
+  exact ⟨rfl, h2.symm, rfl⟩
+
 /-- what the model may look like for child `c` after a history with registrations `h.regs` (any number) -/
 def GoodN (c : Nat) (h : HistN) (v : View) : Prop :=
   match h.fe with
   | none =>
       h.sig = false ∧ h.ra = false ∧ v.sub.proc = .running ∧ v.q = [] ∧ v.calls = [] ∧ v.futs = [] ∧
-      v.sub.exitCb.map (·.2) = h.regs.getLast? ∧ v.inW = !h.regs.isEmpty ∧ (h.regs ≠ [] → v.init = true)
+      v.sub.exitCb.map (·.2) = h.regs.getLast? ∧ v.inW = !h.regs.isEmpty ∧ (h.regs ≠ [] → v.init = true) ∧
+      v.sub.returncode = none
   | some st =>
       -- zombie: exited, not yet reaped by tornado (never registered, or registered before and no SIGCHLD run yet)
       (h.ra = false ∧ v.sub.proc = .zombie st ∧ v.q = [] ∧ v.calls = [] ∧ v.futs = [] ∧
         v.sub.exitCb.map (·.2) = h.regs.getLast? ∧ v.inW = !h.regs.isEmpty ∧
-        (h.regs ≠ [] → v.init = true ∧ h.sig = false)) ∨
+        (h.regs ≠ [] → v.init = true ∧ h.sig = false) ∧ v.sub.returncode = none) ∨
       -- queued: reaped, `_set_returncode(status)` waits on the loop; the installed callback is the latest registration
-      (v.sub.proc = .reaped ∧ v.q = [st] ∧ v.calls = [] ∧ v.futs = [] ∧ h.regs ≠ [] ∧
-        v.sub.exitCb.map (·.2) = h.regs.getLast?) ∨
-      -- reported
-      (v.sub.proc = .reaped ∧ v.q = [] ∧ ∃ r m, m ∈ h.regs ∧ v.calls = doneCalls c r st ∧ v.futs = doneFuts c r m st)
+      (v.sub.proc = .reaped ∧ v.q = [.status st] ∧ v.calls = [] ∧ v.futs = [] ∧ h.regs ≠ [] ∧
+        v.sub.exitCb.map (·.2) = h.regs.getLast? ∧ v.sub.returncode = none) ∧ True ∨
+      -- reported: `returncode` is set (decodable status), `_exit_callback` cleared; what is on the loop are callbacks of
+      -- registrations made since (`.late`), what is in the log is the report + the late callbacks already run
+      (v.sub.proc = .reaped ∧ v.sub.returncode = decodeStatus st ∧ (decodeStatus st ≠ none → v.sub.exitCb = none) ∧
+        LateQ h.regs (decodeStatus st) v.q ∧
+        ∃ r m lc lf, m ∈ h.regs ∧ v.calls = doneCalls c r st ++ lc ∧ v.futs = doneFuts c r m st ++ lf ∧
+          LateCalls c (decodeStatus st) lc)
 
 theorem getLast?_concat' {α} (l : List α) (a : α) : (l ++ [a]).getLast? = some a := by simp
 
@@ -81,8 +141,8 @@ theorem goodN_step (c : Nat) (h : HistN) (v : View) (op : Op) (hg : GoodN c h v)
   rcases fe with _ | st
   · -- not exited yet
     simp only [GoodN] at hg
-    obtain ⟨h1, h2, h3, h4, h5, h6, h7, h8, h9⟩ := hg
-    subst h1 h2 h3 h4 h5 h6
+    obtain ⟨h1, h2, h3, h4, h5, h6, h7, h8, h9, h10⟩ := hg
+    subst h1 h2 h3 h4 h5 h6 h10
     cases op with
     | exit d st' => by_cases hd : d = c <;> simp_all [GoodN, hstepN, vstep]
     | reg d m' => by_cases hd : d = c <;> simp_all [GoodN, hstepN, vstep, vTry]
@@ -91,8 +151,8 @@ theorem goodN_step (c : Nat) (h : HistN) (v : View) (op : Op) (hg : GoodN c h v)
   · simp only [GoodN] at hg
     rcases hg with hg | hg | hg
     · -- zombie
-      obtain ⟨h2, h3, h4, h5, h6, h7, h8, h9⟩ := hg
-      subst h2 h3 h4 h5 h6
+      obtain ⟨h2, h3, h4, h5, h6, h7, h8, h9, h10⟩ := hg
+      subst h2 h3 h4 h5 h6 h10
       cases op with
       | exit d st' => by_cases hd : d = c <;> simp_all [GoodN, hstepN, vstep]
       | reg d m' => by_cases hd : d = c <;> simp_all [GoodN, hstepN, vstep, vTry]
@@ -109,14 +169,14 @@ theorem goodN_step (c : Nat) (h : HistN) (v : View) (op : Op) (hg : GoodN c h v)
           simp_all [GoodN, hstepN, vstep, vTry]
       | drain => simp_all [GoodN, hstepN, vstep]
     · -- queued
-      obtain ⟨h3, h4, h5, h6, h7, h8⟩ := hg
-      subst h3 h4 h5 h6
+      obtain ⟨⟨h3, h4, h5, h6, h7, h8, h10⟩, -⟩ := hg
+      subst h3 h4 h5 h6 h10
       cases op with
       | exit d st' => by_cases hd : d = c <;> simp_all [GoodN, hstepN, vstep]
       | reg d m' => by_cases hd : d = c <;> simp_all [GoodN, hstepN, vstep, vTry]
       | sigchld => rw [vstep_sigchld_idle c _ (by simp)]; simp_all [GoodN, hstepN]
       | drain =>
-        simp only [hstepN, vstep, GoodN, List.foldl_cons, List.foldl_nil]
+        simp only [hstepN, vstep, GoodN, List.foldl_cons, List.foldl_nil, vItem]
         refine Or.inr (Or.inr ?_)
         obtain ⟨m, hm⟩ : ∃ m, regs.getLast? = some m := by
           cases hl : regs.getLast? with
@@ -133,30 +193,61 @@ theorem goodN_step (c : Nat) (h : HistN) (v : View) (op : Op) (hg : GoodN c h v)
           cases hd : decodeStatus st with
           | none =>
             simp only [vSet, hd]
-            exact ⟨by triv, by triv, r, m1, hmem, by simp [doneCalls, hd], by simp [doneFuts, hd]⟩
+            exact ⟨by triv, by triv, by simp, by simp [LateQ], r, m1, [], [], hmem, by simp [doneCalls, hd],
+              by simp [doneFuts, hd], by simp [LateCalls]⟩
           | some code =>
             simp only [vSet, hd]
-            exact ⟨by triv, by triv, r, m1, hmem, by simp [doneCalls, hd], by simp [doneFuts, hd]⟩
+            exact ⟨by triv, by triv, by simp, by simp [LateQ], r, m1, [], [], hmem, by simp [doneCalls, hd],
+              by simp [doneFuts, hd], by simp [LateCalls]⟩
     · -- reported
-      obtain ⟨h3, h4, r, m, hm, h5, h6⟩ := hg
-      subst h3 h4
+      obtain ⟨h3, h4, h4c, hq, r, m, lc, lf, hm, h5, h6, hlc⟩ := hg
+      subst h3
       cases op with
       | exit d st' =>
         by_cases hd : d = c <;> simp only [hstepN, vstep, hd, ↓reduceIte, GoodN, Option.some_or] <;>
-          exact Or.inr (Or.inr ⟨by triv, by triv, r, m, hm, h5, h6⟩)
+          exact Or.inr (Or.inr ⟨by triv, h4, h4c, hq, r, m, lc, lf, hm, h5, h6, hlc⟩)
       | reg d m' =>
         by_cases hd : d = c
-        · simp only [hstepN, vstep, vTry, hd, ↓reduceIte, GoodN]
-          exact Or.inr (Or.inr ⟨by triv, by triv, r, m, List.mem_append_left _ hm, h5, h6⟩)
+        · have hsub : ∀ x ∈ regs, x ∈ regs ++ [m'] := fun x hx => List.mem_append_left _ hx
+          cases hdc : decodeStatus st with
+          | some code =>
+            rw [hdc] at h4
+            subst h4
+            simp only [hstepN, vstep, hd, ↓reduceIte, GoodN]
+            refine Or.inr (Or.inr ⟨by triv, hdc.symm, by simpa [hdc] using h4c, ?_, r, m, lc, lf, hsub m hm, h5, h6, hlc⟩)
+            intro qi hqi
+            simp only [List.mem_append, List.mem_singleton] at hqi
+            rcases hqi with hqi | hqi
+            · exact lateQ_mono hq hsub qi hqi
+            · exact ⟨nregs, m', code, hqi, hdc, by simp⟩
+          | none =>
+            rw [hdc] at h4
+            subst h4
+            simp only [hstepN, vstep, vTry, hd, ↓reduceIte, GoodN]
+            exact Or.inr (Or.inr ⟨by triv, hdc.symm, by simp [hdc], lateQ_mono hq hsub, r, m, lc, lf, hsub m hm, h5, h6, hlc⟩)
         · simp only [hstepN, vstep, hd, ↓reduceIte, GoodN]
-          exact Or.inr (Or.inr ⟨by triv, by triv, r, m, hm, h5, h6⟩)
+          exact Or.inr (Or.inr ⟨by triv, h4, h4c, hq, r, m, lc, lf, hm, h5, h6, hlc⟩)
       | sigchld =>
         rw [vstep_sigchld_idle c _ (by simp)]
         simp only [hstepN, GoodN, Option.isSome_some, ↓reduceIte]
-        exact Or.inr (Or.inr ⟨by triv, by triv, r, m, hm, h5, h6⟩)
+        exact Or.inr (Or.inr ⟨by triv, h4, h4c, hq, r, m, lc, lf, hm, h5, h6, hlc⟩)
       | drain =>
-        simp only [hstepN, vstep, GoodN, List.foldl_nil]
-        exact Or.inr (Or.inr ⟨by triv, by triv, r, m, hm, h5, h6⟩)
+        simp only [hstepN, vstep, GoodN]
+        rw [fold_late c q _ (lateQ_isLate hq)]
+        refine Or.inr (Or.inr ⟨by triv, h4, h4c, by simp [LateQ], r, m, lc ++ q.flatMap (lateCall c true), lf ++ q.flatMap (lateFut c),
+          hm, ?_, by simp [h6], ?_⟩)
+        · cases q with
+          | nil => simp [h5]
+          | cons qi q' =>
+            obtain ⟨_, _, k, -, hk, -⟩ := hq qi (by simp)
+            have hn : exitCb = none := h4c (by simp [hk])
+            subst hn
+            simp [h5]
+        · intro k hk
+          simp only [List.mem_append] at hk
+          rcases hk with hk | hk
+          · exact hlc k hk
+          · exact lateCalls_of_lateQ c hq k hk
 
 theorem goodN_run (c : Nat) (ops : List Op) (h : HistN) (v : View) (hg : GoodN c h v) :
     GoodN c (ops.foldl (hstepN c) h) (ops.foldl (vstep c) v) := by
@@ -186,148 +277,144 @@ theorem doneFuts_length (c r : Nat) (m : Mode) (st : Nat) : (doneFuts c r m st).
   | none => simp
   | some code => cases hf : futOf m code <;> simp [hf]
 
-/-- in every phase at most one invocation / one settled future is on record for the child -/
-theorem goodN_le_one (c : Nat) (h : HistN) (v : View) (hg : GoodN c h v) :
-    v.calls.length ≤ 1 ∧ v.futs.length ≤ 1 := by
+theorem mem_doneCalls {c r st : Nat} {k : Call} (hk : k ∈ doneCalls c r st) :
+    k.child = c ∧ some k.code = decodeStatus st ∧ k.cleared = true := by
+  unfold doneCalls at hk
+  cases hd : decodeStatus st with
+  | none => simp [hd] at hk
+  | some code =>
+    simp only [hd, List.mem_singleton] at hk
+    subst hk
+    exact ⟨rfl, rfl, rfl⟩
+
+/-- in every phase, everything in the child's invocation log carries the decoded status of its (first) exit and was
+called with `_exit_callback` cleared -/
+theorem goodN_calls_code (c : Nat) (h : HistN) (v : View) (hg : GoodN c h v) :
+    ∀ k ∈ v.calls, k.child = c ∧ some k.code = h.fe.bind decodeStatus ∧ k.cleared = true := by
   unfold GoodN at hg
   split at hg
-  · obtain ⟨-, -, -, -, h5, h6, -⟩ := hg
-    simp [h5, h6]
+  · obtain ⟨-, -, -, -, h5, -⟩ := hg
+    simp [h5]
   · rcases hg with hg | hg | hg
-    · obtain ⟨-, -, -, h5, h6, -⟩ := hg
-      simp [h5, h6]
-    · obtain ⟨-, -, h5, h6, -⟩ := hg
-      simp [h5, h6]
-    · obtain ⟨-, -, r, m, -, h5, h6⟩ := hg
-      rw [h5, h6]
-      exact ⟨doneCalls_length .., doneFuts_length ..⟩
+    · obtain ⟨-, -, -, h5, -⟩ := hg
+      simp [h5]
+    · obtain ⟨⟨-, -, h5, -⟩, -⟩ := hg
+      simp [h5]
+    · obtain ⟨-, -, -, -, r, m, lc, lf, -, h5, -, hlc⟩ := hg
+      intro k hk
+      rw [h5, List.mem_append] at hk
+      rename_i st heq
+      rw [heq]
+      rcases hk with hk | hk
+      · exact mem_doneCalls hk
+      · exact hlc k hk
 
-theorem vSet_q (c : Nat) (v : View) (st : Nat) : (vSet c v st).q = v.q := by
-  unfold vSet
-  split
-  · rfl
-  · split <;> rfl
+theorem vItem_q (c : Nat) (v : View) (qi : QI) : (vItem c v qi).q = v.q := by
+  cases qi with
+  | late r m code => rfl
+  | status st =>
+    simp only [vItem]
+    unfold vSet
+    split
+    · rfl
+    · split <;> rfl
 
-theorem fold_vSet_q (c : Nat) (l : List Nat) (v : View) : (l.foldl (vSet c) v).q = v.q := by
+theorem fold_vItem_q (c : Nat) (l : List QI) (v : View) : (l.foldl (vItem c) v).q = v.q := by
   induction l generalizing v with
   | nil => rfl
-  | cons a l ih => simp only [List.foldl_cons, ih, vSet_q]
+  | cons a l ih => simp only [List.foldl_cons, ih, vItem_q]
 
 /-- after a drain nothing of the child is left on the loop -/
 theorem drain_q_nil (c : Nat) (v : View) : (vstep c v .drain).q = [] := by
-  simp only [vstep, fold_vSet_q]
+  simp only [vstep, fold_vItem_q]
 
-/-- **reported is absorbing**: once the child has been reaped by tornado and its `_set_returncode` has run
-(nothing queued), no operation whatsoever changes its invocation log or its settled futures again -/
-theorem reported_absorbing (c : Nat) (v : View) (op : Op) (hp : v.sub.proc = .reaped) (hq : v.q = []) :
-    (vstep c v op).sub.proc = .reaped ∧ (vstep c v op).q = [] ∧ (vstep c v op).calls = v.calls ∧
-    (vstep c v op).futs = v.futs := by
-  cases op with
-  | exit d st => by_cases hd : d = c <;> simp [vstep, hd, hp, hq]
-  | reg d m => by_cases hd : d = c <;> simp [vstep, vTry, hd, hp, hq]
-  | sigchld => rw [vstep_sigchld_idle c v (by simp [hp])]; exact ⟨hp, hq, rfl, rfl⟩
-  | drain => simp [vstep, hp, hq]
-
-/-- … and unless the child is registered again, `_exit_callback` and the `_waiting` entry stay as they are -/
-theorem reported_absorbing_noreg (c : Nat) (v : View) (op : Op) (hp : v.sub.proc = .reaped) (hq : v.q = [])
-    (hop : ∀ m, op ≠ .reg c m) : (vstep c v op).sub = v.sub ∧ (vstep c v op).inW = v.inW := by
-  cases op with
-  | exit d st => by_cases hd : d = c <;> simp [vstep, hd, hp]
-  | reg d m =>
-    by_cases hd : d = c
-    · exact absurd (hd ▸ rfl) (hop m)
-    · simp [vstep, hd]
-  | sigchld => rw [vstep_sigchld_idle c v (by simp [hp])]; exact ⟨rfl, rfl⟩
-  | drain => simp [vstep, hq]
-
-theorem reported_absorbing_run (c : Nat) (ops : List Op) (v : View) (hp : v.sub.proc = .reaped) (hq : v.q = []) :
-    (ops.foldl (vstep c) v).sub.proc = .reaped ∧ (ops.foldl (vstep c) v).q = [] ∧
-    (ops.foldl (vstep c) v).calls = v.calls ∧ (ops.foldl (vstep c) v).futs = v.futs := by
-  induction ops generalizing v with
-  | nil => exact ⟨hp, hq, rfl, rfl⟩
-  | cons op ops ih =>
-    obtain ⟨h1, h2, h3, h4⟩ := reported_absorbing c v op hp hq
-    obtain ⟨k1, k2, k3, k4⟩ := ih _ h1 h2
-    exact ⟨k1, k2, k3.trans h3, k4.trans h4⟩
-
-theorem reported_absorbing_noreg_run (c : Nat) (ops : List Op) (v : View) (hp : v.sub.proc = .reaped) (hq : v.q = [])
-    (hops : Spec.regsOf c ops = []) :
-    (ops.foldl (vstep c) v).sub = v.sub ∧ (ops.foldl (vstep c) v).inW = v.inW := by
-  induction ops generalizing v with
-  | nil => exact ⟨rfl, rfl⟩
-  | cons op ops ih =>
-    have hop : ∀ m, op ≠ .reg c m := by
-      intro m hm
-      subst hm
-      simp [Spec.regsOf] at hops
-    have hops' : Spec.regsOf c ops = [] := by
-      cases op with
-      | reg d m =>
-        by_cases hd : d = c
-        · exact absurd (hd ▸ rfl) (hop m)
-        · simpa [Spec.regsOf, hd] using hops
-      | exit d st => simpa [Spec.regsOf] using hops
-      | sigchld => simpa [Spec.regsOf] using hops
-      | drain => simpa [Spec.regsOf] using hops
-    obtain ⟨h1, h2, -, -⟩ := reported_absorbing c v op hp hq
-    obtain ⟨g1, g2⟩ := reported_absorbing_noreg c v op hp hq hop
-    obtain ⟨k1, k2⟩ := ih _ h1 h2 hops'
-    exact ⟨k1.trans g1, k2.trans g2⟩
-
-/-- a callback on record means the child is in the "reported" phase -/
+/-- a callback on record means the child is in the "reported" phase: the status was decodable, `returncode` is set to
+the decoded code and `_exit_callback` is cleared -/
 theorem fired_reported (c : Nat) (h : HistN) (v : View) (hg : GoodN c h v) (hc : v.calls ≠ []) :
-    v.sub.proc = .reaped ∧ v.q = [] := by
+    ∃ st code, h.fe = some st ∧ decodeStatus st = some code ∧ v.sub.returncode = some code ∧ v.sub.exitCb = none := by
   unfold GoodN at hg
   split at hg
   · exact absurd hg.2.2.2.2.1 hc
-  · rcases hg with hg | hg | hg
+  · rename_i st heq
+    rcases hg with hg | hg | hg
     · exact absurd hg.2.2.2.1 hc
-    · exact absurd hg.2.2.1 hc
-    · exact ⟨hg.1, hg.2.1⟩
+    · exact absurd hg.1.2.2.1 hc
+    · obtain ⟨-, h4, h4c, -, r, m, lc, lf, -, h5, -, hlc⟩ := hg
+      cases hd : decodeStatus st with
+      | some code => exact ⟨st, code, heq, hd, by rw [h4, hd], h4c (by simp [hd])⟩
+      | none =>
+        exfalso
+        apply hc
+        rw [h5]
+        have : lc = [] := by
+          cases lc with
+          | nil => rfl
+          | cons k lc =>
+            have := (hlc k (by simp)).2.1
+            simp [hd] at this
+        simp [this, doneCalls, hd]
 
 /-- what is on record for a child with at least one registration once nothing is queued any more and the exit (if any)
-has been noticed: a SIGCHLD handler run after it, or a registration after it -/
+has been noticed (a SIGCHLD handler run after it, or a registration after it): at least one invocation iff it exited
+with a decodable status; every invocation carries the decoded code; the first settled future is the reporting
+registration's -/
 theorem settledN (c : Nat) (h : HistN) (v : View) (hg : GoodN c h v) (hq : v.q = []) (hr : h.regs ≠ [])
     (hrep : h.fe = none ∨ h.sig = true ∨ h.ra = true) :
-    v.calls.map (·.code) = (h.fe.bind decodeStatus).toList ∧ (∀ k ∈ v.calls, k.cleared = true) ∧
-    ∃ m ∈ h.regs, v.futs.map (·.2.2) = ((h.fe.bind decodeStatus).toList).filterMap (futOf m) := by
+    (∀ k ∈ v.calls, some k.code = h.fe.bind decodeStatus ∧ k.cleared = true) ∧
+    (h.fe.bind decodeStatus ≠ none → v.calls ≠ []) ∧
+    ∃ m ∈ h.regs, ∃ lf, v.futs.map (·.2.2) = ((h.fe.bind decodeStatus).toList).filterMap (futOf m) ++ lf := by
+  refine ⟨fun k hk => (goodN_calls_code c h v hg k hk).2, ?_⟩
   obtain ⟨regs, fe, sig, ra⟩ := h
   cases fe with
   | none =>
     simp only [GoodN] at hg
     obtain ⟨-, -, -, -, h5, h6, -⟩ := hg
     obtain ⟨m, hm⟩ := List.exists_mem_of_ne_nil regs hr
-    simp only [h5, h6, List.map_nil, Option.bind_none, Option.toList_none, List.not_mem_nil, false_imp_iff,
-      implies_true, List.filterMap_nil, true_and]
-    exact ⟨m, hm, trivial⟩
+    refine ⟨by simp, m, hm, [], ?_⟩
+    simp [h6]
   | some st =>
     simp only [GoodN] at hg
     rcases hg with hg | hg | hg
-    · obtain ⟨h2, -, -, -, -, -, -, h9⟩ := hg
+    · obtain ⟨h2, -, -, -, -, -, -, h9, -⟩ := hg
       have := (h9 hr).2
       subst h2 this
       simp at hrep
     · rw [hq] at hg
       simp at hg
-    · obtain ⟨-, -, r, m, hm, h5, h6⟩ := hg
-      refine ⟨?_, ?_, m, hm, ?_⟩
-      · rw [h5]; simp only [doneCalls, Option.bind_some]
-        cases decodeStatus st <;> simp
-      · rw [h5]; simp only [doneCalls]
-        cases decodeStatus st <;> simp
-      · rw [h6]; simp only [doneFuts, Option.bind_some]
+    · obtain ⟨-, -, -, -, r, m, lc, lf, hm, h5, h6, -⟩ := hg
+      refine ⟨?_, m, hm, lf.map (·.2.2), ?_⟩
+      · intro hne
+        rw [h5]
+        simp only [Option.bind_some] at hne
+        cases hd : decodeStatus st with
+        | none => exact absurd hd hne
+        | some code => simp [doneCalls, hd]
+      · rw [h6]; simp only [doneFuts, Option.bind_some, List.map_append]
         cases decodeStatus st with
         | none => simp
         | some code => cases hf : futOf m code <;> simp [hf]
 
-/-- **which callback fires**: a drain adds to the child's invocation log exactly the callback that is installed in
-`_exit_callback` at that moment (the latest registration), called with the decoded queued status; nothing if nothing
-is queued for the child -/
+/-- what one queued item makes the loop call, given the installed `_exit_callback` -/
+def firedBy (c : Nat) (cb : Option (Nat × Mode)) : QI → List Call
+  | .status st => (match cb with | some (r, _) => doneCalls c r st | none => [])
+  | .late r _ code => [{ child := c, reg := r, code := code, cleared := true }]
+
+theorem flatMap_firedBy_late (c : Nat) (cb : Option (Nat × Mode)) (q : List QI) (hq : ∀ qi ∈ q, isLate qi = true) :
+    q.flatMap (firedBy c cb) = q.flatMap (lateCall c true) := by
+  induction q with
+  | nil => rfl
+  | cons qi q ih =>
+    have h1 := hq qi (by simp)
+    have h2 : ∀ x ∈ q, isLate x = true := fun x hx => hq x (by simp [hx])
+    cases qi with
+    | status st => simp [isLate] at h1
+    | late r m code => simp [List.flatMap_cons, firedBy, lateCall, ih h2]
+
+/-- **which callbacks fire**: a drain adds to the child's invocation log exactly: for a queued status, the callback that
+is installed in `_exit_callback` at that moment (the latest registration) with the decoded status; for every
+registration made after the report, that registration's callback with the stored code — in queue order -/
 theorem drain_fires_installed (c : Nat) (h : HistN) (v : View) (hg : GoodN c h v) :
-    (vstep c v .drain).calls = v.calls ++
-      (match v.q, v.sub.exitCb with
-       | [st], some (r, _) => doneCalls c r st
-       | _, _ => []) := by
+    (vstep c v .drain).calls = v.calls ++ v.q.flatMap (firedBy c v.sub.exitCb) := by
   obtain ⟨regs, fe, sig, ra⟩ := h
   obtain ⟨⟨proc, exitCb, rc⟩, inW, init, q, nregs, calls, futs⟩ := v
   cases fe with
@@ -342,7 +429,7 @@ theorem drain_fires_installed (c : Nat) (h : HistN) (v : View) (hg : GoodN c h v
     · obtain ⟨-, -, h4, -⟩ := hg
       subst h4
       simp [vstep]
-    · obtain ⟨-, h4, h5, -, h7, h8⟩ := hg
+    · obtain ⟨⟨-, h4, h5, -, h7, h8, -⟩, -⟩ := hg
       subst h4 h5
       cases exitCb with
       | none =>
@@ -351,32 +438,175 @@ theorem drain_fires_installed (c : Nat) (h : HistN) (v : View) (hg : GoodN c h v
         exact h7 (List.getLast?_eq_none_iff.mp h8.symm)
       | some rm =>
         obtain ⟨r, m⟩ := rm
-        cases hd : decodeStatus st <;> simp [vstep, vSet, doneCalls, hd]
-    · obtain ⟨-, h4, -⟩ := hg
-      subst h4
-      simp [vstep]
+        cases hd : decodeStatus st <;> simp [vstep, vItem, vSet, doneCalls, firedBy, hd]
+    · obtain ⟨-, -, h4c, hq, -⟩ := hg
+      simp only [vstep]
+      rw [fold_late c q _ (lateQ_isLate hq), flatMap_firedBy_late c _ q (lateQ_isLate hq)]
+      cases q with
+      | nil => simp
+      | cons qi q' =>
+        obtain ⟨_, _, k, -, hk, -⟩ := hq qi (by simp)
+        have hn : exitCb = none := h4c (by simp [hk])
+        subst hn
+        rfl
 
-/-- a registration made after the exit, followed by one drain: the new callback fires (once, decoded code) iff the
-exit had not already been reported to an earlier registration; otherwise the log does not change -/
+/-- a registration made after the exit, followed by one drain: the callbacks of earlier late registrations still on
+the loop run, then the new callback — exactly once, with the decoded code, `_exit_callback` cleared — whether or not the
+exit had already been reported to an earlier registration -/
 theorem reg_after_exit_view (c : Nat) (h : HistN) (v : View) (m : Mode) (st : Nat) (code : Int)
     (hg : GoodN c h v) (hfe : h.fe = some st) (hcode : decodeStatus st = some code) :
     (vstep c (vstep c v (.reg c m)) .drain).calls =
-      if v.calls = [] then [{ child := c, reg := v.nregs, code := code, cleared := true }] else v.calls := by
+      v.calls ++ v.q.flatMap (lateCall c true) ++ [{ child := c, reg := v.nregs, code := code, cleared := true }] := by
   obtain ⟨regs, fe, sig, ra⟩ := h
   obtain ⟨⟨proc, exitCb, rc⟩, inW, init, q, nregs, calls, futs⟩ := v
   simp only at hfe
   subst hfe
   simp only [GoodN] at hg
   rcases hg with hg | hg | hg
-  · obtain ⟨-, h3, h4, h5, -⟩ := hg
-    subst h3 h4 h5
-    simp [vstep, vTry, vSet, hcode]
-  · obtain ⟨h3, h4, h5, -⟩ := hg
-    subst h3 h4 h5
-    simp [vstep, vTry, vSet, hcode]
-  · obtain ⟨h3, h4, r, m1, -, h5, -⟩ := hg
-    subst h3 h4
-    have hne : calls ≠ [] := by rw [h5]; simp [doneCalls, hcode]
-    simp [vstep, vTry, hne]
+  · obtain ⟨-, h3, h4, h5, -, -, -, -, h10⟩ := hg
+    subst h3 h4 h5 h10
+    simp [vstep, vTry, vItem, vSet, hcode]
+  · obtain ⟨⟨h3, h4, h5, -, -, -, h10⟩, -⟩ := hg
+    subst h3 h4 h5 h10
+    simp [vstep, vTry, vItem, vSet, hcode, lateCall]
+  · obtain ⟨h3, h4, h4c, hq, -⟩ := hg
+    rw [hcode] at h4
+    have hn : exitCb = none := h4c (by simp [hcode])
+    subst h3 h4 hn
+    have hl : ∀ qi ∈ q ++ [QI.late nregs m code], isLate qi = true := by
+      intro qi hqi
+      simp only [List.mem_append, List.mem_singleton] at hqi
+      rcases hqi with hqi | hqi
+      · exact lateQ_isLate hq qi hqi
+      · subst hqi; rfl
+    simp only [vstep, ↓reduceIte]
+    rw [fold_late c _ _ hl]
+    simp [List.flatMap_append, lateCall]
+
+/-! ### a registration made after the report is called -/
+
+/-- registration `n` (mode `m`) made when `returncode = code` was already set: its callback is on the loop, or it has
+been called (and its `wait_for_exit` future settled) -/
+def Live (c n : Nat) (m : Mode) (code : Int) (v : View) : Prop :=
+  (QI.late n m code ∈ v.q ∧ v.sub.exitCb = none ∧ v.sub.returncode.isSome = true) ∨
+  (({ child := c, reg := n, code := code, cleared := true } : Call) ∈ v.calls ∧
+    ∀ f, futOf m code = some f → (c, n, f) ∈ v.futs)
+
+theorem vItem_mono (c : Nat) (v : View) (qi : QI) :
+    (∀ k ∈ v.calls, k ∈ (vItem c v qi).calls) ∧ (∀ f ∈ v.futs, f ∈ (vItem c v qi).futs) := by
+  cases qi with
+  | late r m code => simp [vItem, vLate]; exact ⟨fun k hk => Or.inl hk, fun a b f hf => Or.inl hf⟩
+  | status st =>
+    simp only [vItem]
+    unfold vSet
+    split
+    · exact ⟨fun k hk => hk, fun f hf => hf⟩
+    · split
+      · exact ⟨fun k hk => hk, fun f hf => hf⟩
+      · exact ⟨fun k hk => List.mem_append_left _ hk, fun f hf => List.mem_append_left _ hf⟩
+
+theorem fold_mono (c : Nat) (q : List QI) (v : View) :
+    (∀ k ∈ v.calls, k ∈ (q.foldl (vItem c) v).calls) ∧ (∀ f ∈ v.futs, f ∈ (q.foldl (vItem c) v).futs) := by
+  induction q generalizing v with
+  | nil => exact ⟨fun k hk => hk, fun f hf => hf⟩
+  | cons qi q ih =>
+    simp only [List.foldl_cons]
+    exact ⟨fun k hk => (ih _).1 k ((vItem_mono c v qi).1 k hk), fun f hf => (ih _).2 f ((vItem_mono c v qi).2 f hf)⟩
+
+theorem vItem_keeps_cleared (c : Nat) (v : View) (qi : QI) (h1 : v.sub.exitCb = none)
+    (h2 : v.sub.returncode.isSome = true) :
+    (vItem c v qi).sub.exitCb = none ∧ (vItem c v qi).sub.returncode.isSome = true := by
+  cases qi with
+  | late r m code => exact ⟨h1, h2⟩
+  | status st =>
+    simp only [vItem]
+    unfold vSet
+    split
+    · exact ⟨h1, h2⟩
+    · simp [h1]
+
+theorem fold_fires (c n : Nat) (m : Mode) (code : Int) (q : List QI) (v : View) (hmem : QI.late n m code ∈ q)
+    (h1 : v.sub.exitCb = none) (h2 : v.sub.returncode.isSome = true) :
+    ({ child := c, reg := n, code := code, cleared := true } : Call) ∈ (q.foldl (vItem c) v).calls ∧
+    ∀ f, futOf m code = some f → (c, n, f) ∈ (q.foldl (vItem c) v).futs := by
+  induction q generalizing v with
+  | nil => simp at hmem
+  | cons qi q ih =>
+    simp only [List.foldl_cons]
+    simp only [List.mem_cons] at hmem
+    rcases hmem with hmem | hmem
+    · subst hmem
+      have hc : ({ child := c, reg := n, code := code, cleared := true } : Call) ∈ (vItem c v (.late n m code)).calls := by
+        simp [vItem, vLate, h1]
+      have hf : ∀ f, futOf m code = some f → (c, n, f) ∈ (vItem c v (.late n m code)).futs := by
+        intro f hf
+        simp [vItem, vLate, hf]
+      exact ⟨(fold_mono c q _).1 _ hc, fun f h => (fold_mono c q _).2 _ (hf f h)⟩
+    · obtain ⟨g1, g2⟩ := vItem_keeps_cleared c v qi h1 h2
+      exact ih _ hmem g1 g2
+
+theorem live_step (c n : Nat) (m : Mode) (code : Int) (v : View) (op : Op) (h : Live c n m code v) :
+    Live c n m code (vstep c v op) := by
+  rcases h with ⟨h0, h1, h2⟩ | ⟨h0, h1⟩
+  · cases op with
+    | exit d st =>
+      by_cases hd : d = c
+      · simp only [vstep, hd, ↓reduceIte]
+        split
+        · exact Or.inl ⟨h0, h1, h2⟩
+        · exact Or.inl ⟨h0, h1, h2⟩
+      · simp only [vstep, hd, ↓reduceIte]
+        exact Or.inl ⟨h0, h1, h2⟩
+    | reg d m' =>
+      by_cases hd : d = c
+      · obtain ⟨code', hc'⟩ := Option.isSome_iff_exists.mp h2
+        simp only [vstep, hd, ↓reduceIte, hc']
+        exact Or.inl ⟨List.mem_append_left _ h0, h1, by simp [hc']⟩
+      · simp only [vstep, hd, ↓reduceIte]
+        exact Or.inl ⟨h0, h1, h2⟩
+    | sigchld =>
+      simp only [vstep]
+      split
+      · unfold vTry
+        split
+        · exact Or.inl ⟨List.mem_append_left _ h0, h1, h2⟩
+        · exact Or.inl ⟨h0, h1, h2⟩
+      · exact Or.inl ⟨h0, h1, h2⟩
+    | drain =>
+      simp only [vstep]
+      exact Or.inr (fold_fires c n m code v.q _ h0 h1 h2)
+  · have key : ∀ w : View, (∀ k ∈ v.calls, k ∈ w.calls) → (∀ f ∈ v.futs, f ∈ w.futs) → Live c n m code w :=
+      fun w hc hf => Or.inr ⟨hc _ h0, fun f hfo => hf _ (h1 f hfo)⟩
+    cases op with
+    | exit d st =>
+      by_cases hd : d = c
+      · simp only [vstep, hd, ↓reduceIte]
+        split <;> exact key _ (fun k hk => hk) (fun f hf => hf)
+      · simp only [vstep, hd, ↓reduceIte]
+        exact key _ (fun k hk => hk) (fun f hf => hf)
+    | reg d m' =>
+      by_cases hd : d = c
+      · simp only [vstep, hd, ↓reduceIte]
+        split
+        · exact key _ (fun k hk => hk) (fun f hf => hf)
+        · unfold vTry
+          split <;> exact key _ (fun k hk => hk) (fun f hf => hf)
+      · simp only [vstep, hd, ↓reduceIte]
+        exact key _ (fun k hk => hk) (fun f hf => hf)
+    | sigchld =>
+      simp only [vstep]
+      split
+      · unfold vTry
+        split <;> exact key _ (fun k hk => hk) (fun f hf => hf)
+      · exact key _ (fun k hk => hk) (fun f hf => hf)
+    | drain =>
+      simp only [vstep]
+      exact key _ (fold_mono c v.q { v with q := [] }).1 (fold_mono c v.q { v with q := [] }).2
+
+theorem live_run (c n : Nat) (m : Mode) (code : Int) (ops : List Op) (v : View) (h : Live c n m code v) :
+    Live c n m code (ops.foldl (vstep c) v) := by
+  induction ops generalizing v with
+  | nil => exact h
+  | cons op ops ih => exact ih _ (live_step c n m code v op h)
 
 end TornadoModel.C42
